@@ -160,7 +160,7 @@ def run_case(case):
         subj = None
         for attempt in range(10):
             try:
-                forced = [0.4, 1.1, 1.6] if case["arch"] in ("star", "hyper", "graft", "stepgrowth", "comb") else [0.4, 1.1, 2.2, 3.1]
+                forced = [0.4, 1.1, 1.6] if case["arch"] in ("star", "hyper", "graft", "stepgrowth", "comb", "sidecap") else [0.4, 1.1, 2.2, 3.1]
                 s = W.Subject(case["seed"] * 17 + attempt, arch=case["arch"], small=True, forced=forced)
             except ValueError:
                 continue
